@@ -155,7 +155,7 @@ def norm(ty: SdsType | None) -> frozenset | None:
         return None
     atoms: set = set()
     if ty.kind == "named":
-        name = re.sub(r"^LC_m\d{6}$", "LC", ty.name)
+        name = re.sub(r"^LC_m\d+$", "LC", ty.name)
         if name == "Nothing" and not ty.args:
             if ty.nullable:
                 return frozenset([("null",)])
